@@ -247,7 +247,9 @@ type exec struct {
 	lockLevel bool
 }
 
-var token = cmdlib.TokenSecrets["t1"]
+// the subscribers use t2; t1 carries the same policy, sorts before t2 and never subscribes (a policy change lists the
+// tokens it affects in accessor order, and every one of them has to be visited)
+var token = cmdlib.TokenSecrets["t2"]
 
 // svcName has upper-case letters on purpose: subjects are matched case-insensitively and every path
 // that builds a subject (snapshot, events, events routed under a proxy's destination) must fold alike.
@@ -676,8 +678,8 @@ func Run(c *ev.Ctx) {
 		{op: cmdlib.Resolver(svcName, cmdlib.ResolverOpt{}).Upsert()}, {op: cmdlib.Resolver(svcName, cmdlib.ResolverOpt{Subsets: []string{"v1"}}).Upsert()}, {op: cmdlib.Resolver(svcName, cmdlib.ResolverOpt{}).Delete()},
 		{op: cmdlib.Resolver("b", cmdlib.ResolverOpt{}).Upsert()}, {op: cmdlib.Resolver("b", cmdlib.ResolverOpt{}).Delete()},
 	}
-	tokenSeed := []world.Op{cmdlib.PolicySet("p1", "policy-one", `service_prefix "" { policy = "read" } node_prefix "" { policy = "read" }`), cmdlib.TokenSet(cmdlib.TokenSpec{ID: "t1", Policies: []string{"p1"}}, false, 0, false)}
-	aclWrite := write{op: cmdlib.TokenSet(cmdlib.TokenSpec{ID: "t1", Policies: []string{"p1"}, Desc: "changed"}, false, 0, false), acl: true}
+	tokenSeed := []world.Op{cmdlib.PolicySet("p1", "policy-one", `service_prefix "" { policy = "read" } node_prefix "" { policy = "read" }`), cmdlib.TokenSet(cmdlib.TokenSpec{ID: "t1", Policies: []string{"p1"}}, false, 0, false), cmdlib.TokenSet(cmdlib.TokenSpec{ID: "t2", Policies: []string{"p1"}}, false, 0, false)}
+	aclWrite := write{op: cmdlib.TokenSet(cmdlib.TokenSpec{ID: "t2", Policies: []string{"p1"}, Desc: "changed"}, false, 0, false), acl: true}
 	policyWrite := write{op: cmdlib.PolicySet("p1", "policy-one", `service_prefix "" { policy = "write" }`), acl: true}
 	restore := write{restore: true}
 
